@@ -188,7 +188,9 @@ class Run(object):
             d['secs'] = round(d['secs'], 3)
         PROOF_MODES = ('SMT-A', 'SMT-B', 'COMP', 'SMT-shape', 'STATIC')
         proof_obs = [o for o in self.obs if o.mode in PROOF_MODES]
-        n_proof = len([o for o in proof_obs if o.status != 'known-finding'])
+        # obligations that fell back to the bounded twin / were left undecided by the solver are reported under
+        # bounded_obligations / status_counts, not counted as proof obligations
+        n_proof = len([o for o in proof_obs if o.status not in ('known-finding', DOWNGRADED, 'superseded-by-twin')])
         n_disch = len([o for o in proof_obs if o.status == DISCHARGED])
         n_bnd = len([o for o in self.obs if o.status in (BOUNDED_OK, DOWNGRADED)])
         for (label, n, mode, backend, secs, status) in self.bulks:
@@ -196,7 +198,7 @@ class Run(object):
             d = by_mode.setdefault('%s/%s' % (mode, backend), {'n': 0, 'secs': 0.0})
             d['n'] += n
             d['secs'] = round(d['secs'] + secs, 3)
-            if mode in PROOF_MODES:
+            if mode in PROOF_MODES and status != DOWNGRADED:
                 n_proof += n
                 if status == DISCHARGED:
                     n_disch += n
